@@ -29,6 +29,10 @@ def _process_vlandb(rule, key, diff, hw, explicit_changing, multi_chunk):
     (prefix2, old, old_blocks) = _parse_vlancfg_actions(diff[Op.REMOVED])
     if not prefix:
         prefix = prefix2
+    # VLANs on lines that stay (unchanged, or a vlan block whose content changes) belong to both the old and the new set
+    (_, staying, _) = _parse_vlancfg_actions(diff[Op.UNCHANGED] + diff[Op.AFFECTED])
+    old |= staying
+    new |= staying
 
     if len(diff[Op.ADDED]) == 1 and len(new) == 0:
         # switchport trunk allowed vlan none
